@@ -142,6 +142,8 @@ def features(case):
             if s["scatter"] and "wf" in s["run"] and any(
                     len(o["src"]) == 1 and "/" not in o["src"][0] for o in s["run"]["wf"]["outputs"]):
                 f.add("scattered-subworkflow-passthrough")
+            if len(s["scatter"]) > 1 and "wf" in s["run"] and s.get("method") == "nested_crossproduct":
+                f.add("scattered-subworkflow-nested-multi")
             if s["scatter"] and s.get("method") == "nested_crossproduct":
                 f.add("nested-crossproduct")
             if len(s["scatter"]) > 1 and s.get("method") in (None, "dotproduct"):
@@ -164,8 +166,10 @@ def diagnose(c, o, clause):
         e = errclass(o["sf"].get("why", ""))
         if e == "static-checker-incompatible" and "single-source-list-linkmerge" in fs:
             return "static-checker-single-source-list"
-        if e == "token-not-optional" and "all-non-null" in fs:
-            return "all-non-null-empty"
+        if e in ("token-not-optional", "invalid-value-none") and "all-non-null" in fs:
+            return "all-non-null-single-source-with-null"
+        if "scattered-subworkflow-nested-multi" in fs and e in ("tag-int-valueerror", "failed-workflow-execution", "other"):
+            return "scattered-subworkflow-nested-crossproduct"
         if e == "no-suitable-token-processor" and "nested-crossproduct" in fs:
             return "empty-nested-crossproduct"
         if e in ("no-suitable-token-processor", "array-expected") and "merge-flattened" in fs:
@@ -177,6 +181,8 @@ def diagnose(c, o, clause):
         d = diffclass(c, o)
         if "scattered-subworkflow-passthrough" in fs and d in ("elements-missing", "same-elements-different-nesting"):
             return "scattered-subworkflow-passthrough"
+        if "scattered-subworkflow-nested-multi" in fs and d in ("elements-missing", "same-elements-different-nesting"):
+            return "scattered-subworkflow-nested-crossproduct"
         if "dup-source" in fs and d in ("elements-missing", "value-differs", "elements-differ"):
             return "dup-source-dropped"
         if "nested-crossproduct" in fs and d == "same-elements-different-nesting":
@@ -590,6 +596,8 @@ def _canon(x):
 
 ERRCLASSES = [
     ("is not optional", "token-not-optional"),
+    ("Invalid value None for token", "invalid-value-none"),
+    ("invalid literal for int()", "tag-int-valueerror"),
     ("it should be an array", "array-expected"),
     ("No suitable token processors", "no-suitable-token-processor"),
     ("is incompatible", "static-checker-incompatible"),
